@@ -55,6 +55,21 @@ META = {
     "design_ref": "DESIGN.md section 3, C44",
 }
 
+
+def _preload():
+    """Import the ioflo modules under test once in the parent process (vp.cli imports this module after
+    env.use_repo()), so that the forked shard workers do not each recompile ioflo (~1 s per shard)."""
+    try:
+        from vp.core import env
+        env.use_repo()
+        import ioflo.aid.vectoring
+        import ioflo.base.globaling
+    except Exception:       # the lazy imports inside the check functions report the real error
+        pass
+
+
+_preload()
+
 GRID = [(x, y) for x in range(4) for y in range(4)]
 PROBES = [(x, y) for x in range(-1, 5) for y in range(-1, 5)]
 
